@@ -628,7 +628,15 @@ impl Rasn {
             | ASN1Type::ObjectClassField(_)
             | ASN1Type::EmbeddedPdv
             | ASN1Type::External => (vec![], quote!(Any)),
-            ASN1Type::ChoiceSelectionType(_) => unreachable!(),
+            ASN1Type::ChoiceSelectionType(_) => {
+                // Left unresolved by the linker when the referenced CHOICE is not defined
+                return Err(GeneratorError {
+                    kind: GeneratorErrorType::Asn1TypeMismatch,
+                    details: "Choice selection type should have been resolved at this point!"
+                        .into(),
+                    top_level_declaration: None,
+                });
+            }
         })
     }
 
